@@ -103,6 +103,19 @@ CHECKS["C07"] = dict(
     technique="TLA+ transcription of length computation and delimiting; TLC evaluates the bounded case space and logged random cases against the real classes",
     design="5 C07")
 
+CHECKS["C05"] = dict(
+    text=("Decode.tla models parse_ccsds_packet as a state machine (one action per decoded entry, nested-container enter/leave, end of "
+          "entries, choice of the unique valid inheritor via Criteria.tla, concrete end, abstract dead end, ambiguity) over exact typed "
+          "values; TLC runs it on every container forest of 2-3 containers (4: sampled/thorough) x abstract flags x nested placements x "
+          "overlapping criteria x ALL packets, checking CursorIsSum / PathOK / ChosenSatisfied at every step, and on hand-shaped "
+          "structures with a full header root. Each case is decoded by the real library (definitions built by constructors and loaded "
+          "from XML in three spellings) and compared at the end of the walk: items, order, values, header/user-data views, partial "
+          "data and outcome."),
+    note="Packets are at least 2 bytes (the unrecognized-packet report reads the APID from the raw header). Criteria with missing "
+         "operands are undefined (any outcome accepted). " + TRUSTED,
+    technique="TLA+ state-machine spec of the container walk checked by TLC on the exhaustive bounded space; end-state conformance against the real decoder",
+    design="5 C05")
+
 NOT_YET = {}
 for _i in range(1, 21):
     _p = f"C{_i:02d}"
